@@ -618,7 +618,7 @@ def well_typed(T, obj, bridge):
             c = obj.getComponentByPosition(idx, instantiate=False, default=None)
             if not (c is None or c is base.noValue or not c.isValue):
                 return 'member %s must be absent (WITH COMPONENTS)' % n
-        for n, (lo, hi) in T.get('within', {}).items():
+        for n, (lo, hi) in list(T.get('within', {}).items()) + list(T.get('within_and', {}).items()):
             idx = [f[0] for f in T['fields']].index(n)
             c = obj.getComponentByPosition(idx, instantiate=False, default=None)
             if not (c is None or c is base.noValue or not c.isValue) and not lo <= int(c) <= hi:
